@@ -9,6 +9,16 @@ SHAPES = {  # mnemonic -> operand kinds (r register, i immediate, l label, x reg
     "LI": "ri", "MV": "rr", "LW": "rir", "SW": "rir", "BEQ": "rrl", "BNE": "rrl", "BLT": "rrl", "BLE": "rrl",
     "BGT": "rrl", "BGE": "rrl"}
 
+# standard pseudo-instructions are rewritten to the base instructions they stand for (RISC-V assembly manual)
+PSEUDO = {
+    "BEQZ": lambda r, l: ["BEQ", r, "X0", l], "BNEZ": lambda r, l: ["BNE", r, "X0", l], "BLTZ": lambda r, l: ["BLT", r, "X0", l],
+    "BGEZ": lambda r, l: ["BGE", r, "X0", l], "BLEZ": lambda r, l: ["BLE", r, "X0", l], "BGTZ": lambda r, l: ["BGT", r, "X0", l],
+    "J": lambda l: ["JAL", "X0", l], "JR": lambda r: ["JALR", "X0", r, "0"], "NEG": lambda d, r: ["SUB", d, "X0", r],
+    "ADDI": lambda d, r, i: ["ADD", d, r, i], "NOP": lambda: ["ADD", "X0", "X0", "0"], "LD": lambda d, i, r: ["LW", d, i, r],
+    "SD": lambda d, i, r: ["SW", d, i, r],
+}
+
+
 def operand(kind, s):
     if kind in "rx" and REG.match(s):
         return {"k": "reg", "r": s}
@@ -33,7 +43,12 @@ def tokenize(text):
                 raise TokError("line %d: bad label %r" % (ln, line))
             out.append({"op": "label", "l": l})
             continue
-        parts = code.split()
+        parts = code.replace(",", " ").split()
+        if parts[0] in PSEUDO:
+            try:
+                parts = PSEUDO[parts[0]](*parts[1:])
+            except TypeError:
+                raise TokError("line %d: unknown instruction %r" % (ln, line))
         if parts[0] not in SHAPES or len(parts) - 1 != len(SHAPES[parts[0]]):
             raise TokError("line %d: unknown instruction %r" % (ln, line))
         out.append({"op": parts[0], "a": [operand(k, p) for k, p in zip(SHAPES[parts[0]], parts[1:])]})
